@@ -96,6 +96,11 @@ func eqStrs(a, b []string) bool {
 
 type failer func(key, detail string)
 
+// Response-side leaks of hop-by-hop / nominated fields are outside the statement of C16 (which demands their removal
+// from requests, and order + intact bodies of responses). They are counted as observations (notes), not failures; the
+// behaviour is still compared with the model field by field.
+const obsPrefix = "OBS:"
+
 var reqFraming = map[string]bool{"host": true, "content-length": true, "transfer-encoding": true, "trailer": true}
 
 // checkFields compares the fields seen behind the proxy with the fields sent in front of it.
@@ -112,11 +117,15 @@ func checkFields(fail failer, pfx, where string, sent, got []HF, nom map[string]
 	for _, k := range keysOf(exp, act) {
 		e, a := exp[k], act[k]
 		switch {
+		case isReq && k == "user-agent" && len(a) == 1 && strings.HasPrefix(a[0], "Go-http-client/") && !eqStrs(e, a):
+			// net/http's default User-Agent: the client sent none (or nominated it in Connection, so that none may be forwarded)
+			fail("F17:user-agent-invented", fmt.Sprintf("%s: no User-Agent of the client is to be forwarded (sent: %v), the origin received %q", where, sentUA, a[0]))
 		case len(e) == 0:
 			if cl := forbiddenClass(k, nom, isReq); cl != "" {
+				if !isReq {
+					cl = obsPrefix + cl
+				}
 				fail(pfx+"hop-by-hop-forwarded:"+cl, fmt.Sprintf("%s: field %q %q must not be forwarded (%s)", where, k, a, cl))
-			} else if isReq && k == "user-agent" && !sentUA && len(a) == 1 && strings.HasPrefix(a[0], "Go-http-client/") {
-				fail("F17:user-agent-invented", fmt.Sprintf("%s: the client sent no User-Agent, the origin received %q", where, a[0]))
 			} else {
 				fail(pfx+"hdr-added:"+k, fmt.Sprintf("%s: field %q %q was not sent", where, k, a))
 			}
@@ -152,7 +161,9 @@ func checkTrailers(fail failer, pfx, where string, b Body, got []HF, nom map[str
 		e, a := exp[k], act[k]
 		switch {
 		case len(e) == 0:
-			if cl := forbiddenClass(k, nom, isReq); cl != "" {
+			if cl := forbiddenClass(k, nom, isReq); cl != "" && !isReq {
+				fail(obsPrefix+"resp-trailer-hop-by-hop-forwarded", fmt.Sprintf("%s: trailer field %q %q (%s)", where, k, a, cl))
+			} else if cl != "" {
 				fail("F16:trailer-fields-escape-filter", fmt.Sprintf("%s: trailer field %q %q must not be forwarded (%s)", where, k, a, cl))
 			} else {
 				fail(pfx+"trailer-added", fmt.Sprintf("%s: trailer field %q %q was not sent", where, k, a))
@@ -196,23 +207,26 @@ func ridOf(m *Msg) (int, bool) {
 	return n, err == nil
 }
 
-func oracle(c *Case, o *Obs) []common.OracleFailure {
-	var fs []common.OracleFailure
+func oracle(c *Case, o *Obs) (fs []common.OracleFailure, obsNotes []string) {
 	seen := map[string]bool{}
 	fail := func(key, detail string) {
 		if seen[key] {
 			return
 		}
 		seen[key] = true
+		if strings.Contains(key, obsPrefix) {
+			obsNotes = append(obsNotes, key+" | "+detail)
+			return
+		}
 		fs = append(fs, common.OracleFailure{Engine: "httpproxy", Key: key, Case: c, Detail: detail})
 	}
 	if o.Panic != "" {
 		fail("panic", o.Panic)
-		return fs
+		return
 	}
 	if o.Hang {
 		fail("hang", "the exchange did not finish (no side of a correct proxy ever waits for the other here)")
-		return fs
+		return
 	}
 
 	// ---- what reached the origin ----
@@ -286,7 +300,7 @@ func oracle(c *Case, o *Obs) []common.OracleFailure {
 			// an incomplete last request (a side went away): its head may be incomplete too; only leaks are checked
 			nom := nominated(q.Headers)
 			for _, h := range m.Headers {
-				if cl := forbiddenClass(h.K, nom, true); cl != "" && !(strings.EqualFold(h.K, "Connection") && strings.EqualFold(h.V, "close")) && !strings.EqualFold(h.K, "Transfer-Encoding") {
+				if cl := forbiddenClass(h.K, nom, true); cl != "" && !(strings.EqualFold(h.K, "Connection") && strings.EqualFold(h.V, "close")) && !reqFraming[strings.ToLower(h.K)] {
 					fail("hop-by-hop-forwarded:"+cl, fmt.Sprintf("%s: field %q must not be forwarded", where, h.K))
 				}
 			}
@@ -404,8 +418,8 @@ func oracle(c *Case, o *Obs) []common.OracleFailure {
 		nom := nominated(e.r.Headers)
 		isHead := e.q.Method == "HEAD"
 		skip := func(n string) bool {
-			if n == "content-length" {
-				return !isHead
+			if n == "content-length" { // framing, except in a response to HEAD (where it is metadata unless the origin nominated it)
+				return !isHead || nom[n]
 			}
 			return n == "transfer-encoding" || n == "trailer" || n == "connection" || n == "upgrade"
 		}
@@ -430,5 +444,5 @@ func oracle(c *Case, o *Obs) []common.OracleFailure {
 			checkTrailers(fail, "resp-", where, e.r.Body, m.Trailers, nom, false)
 		}
 	}
-	return fs
+	return
 }
